@@ -323,7 +323,7 @@ class UnaryFunctionRelation(AbstractBaseRelation, SimpleRepr):
                 raise ValueError("Unknown variable when slicing UnaryRelation")
 
             name = self._name + "_" + v_name
-            return ZeroAryRelation(name, self._rel_function(partial_assignment[v_name]))
+            return ZeroAryRelation(name, self._eval(partial_assignment[v_name]))
 
         raise ValueError("Too many variables when slicing UnaryRelation")
 
@@ -331,12 +331,12 @@ class UnaryFunctionRelation(AbstractBaseRelation, SimpleRepr):
 
         if isinstance(assignment, list):
             if len(assignment) == 1:
-                return self._rel_function(assignment[0])
+                return self._eval(assignment[0])
             raise ValueError(
                 "Need exactly one argument to get a value from an" " UnaryRelation"
             )
         elif isinstance(assignment, dict):
-            return self._rel_function(assignment[self._variable.name])
+            return self._eval(assignment[self._variable.name])
 
         raise ValueError("Assignment must be a list or a dict.")
 
@@ -347,12 +347,19 @@ class UnaryFunctionRelation(AbstractBaseRelation, SimpleRepr):
 
     def __call__(self, *args, **kwargs):
         if len(args) == 1:
-            return self._rel_function(args[0])
+            return self._eval(args[0])
         elif len(kwargs) == 1:
-            return self._rel_function(kwargs[self._variable.name])
+            return self._eval(kwargs[self._variable.name])
         raise ValueError(
             "Need exactly one argument to get a value from an " "UnaryRelation"
         )
+
+    def _eval(self, value):
+        if isinstance(self._rel_function, ExpressionFunction):
+            # ExpressionFunction only accepts keyword arguments
+            arg_name, = self._rel_function.variable_names
+            return self._rel_function(**{arg_name: value})
+        return self._rel_function(value)
 
     def __str__(self):
         return "UnaryFunctionRelation({})".format(self._name)
